@@ -75,6 +75,14 @@ class _Stop(Exception):
     pass
 
 
+def ed_parser(src):
+    """patches_from_ed_script; a reader written as one loop with a mode variable is read as the nested loop it abbreviates"""
+    from ..core import Func
+    f = src.func(SITE)
+    alt = normalize.mode_variable_to_nested_loop(f.node)
+    return f if alt is None else Func(f.module, alt, f.qual, f.cls)
+
+
 def text_block_loops(fnode):
     """loops `for c in <stream>: ... <list>.append(c)` of a function"""
     out = []
@@ -310,6 +318,8 @@ class TableAnalysis:
                         env[nm] = NumStr('L') if has_range else None
                     else:
                         env[nm] = NumStr('F')
+                if isinstance(self.loop.target, ast.Name):
+                    env[self.loop.target.id] = affinterp.Opaque('the command line')       # (kept for messages, not part of the table)
                 it = It(self.f.site, consts)
                 it.key = (letter, has_range)
                 # raise rows are recorded where the raise statement is executed; nested runs report them once
@@ -336,7 +346,7 @@ def expected(key):
 
 
 def r2_r4_table(rep, src, roles):
-    f = src.func(SITE)
+    f = ed_parser(src)
     rep.saw_func(f)
     loops = [s for s in f.node.body if isinstance(s, ast.For)]
     if len(loops) != 1:
@@ -516,7 +526,7 @@ def failing_exit_reaches(g, inner, t, success_nodes, goal_ids, exhaust=None):
 def r3_terminator(rep, src):
     """the loop that collects the text of an a/c command -- in patches_from_ed_script itself or in a helper it calls -- ends
     successfully only at the "." line; when the stream is exhausted (or yields the empty string) no patch is produced"""
-    f = src.func(SITE)
+    f = ed_parser(src)
     cands = []
     for lp, lst in text_block_loops(f.node):
         # the text-block loop is nested in the command loop
@@ -783,7 +793,7 @@ def r5_application(rep, src):
         rep.fail('C18.R5', f.site, 'application', why, where=f.where)
     # the regex is chosen by the type of the line (helpers inlined): the value matched against a bytes line is the regex whose
     # pattern is bytes
-    g = src.func(SITE)
+    g = ed_parser(src)
     gnode, _ = normalize.inline_helpers(g, depth=2)
     mod = g.module
 
